@@ -298,6 +298,30 @@ func (tb *TB) Eq(a, b *Term) *Term {
 			return tb.F
 		}
 	}
+	// cancel a common addend / xor operand: a+b == a  <=>  b == 0
+	for _, op := range []Op{OpAdd, OpBXor} {
+		x, y := a, b
+		for k := 0; k < 2; k++ {
+			if y.Op == op {
+				if y.Args[0] == x {
+					return tb.Eq(y.Args[1], tb.Const(x.W, 0))
+				}
+				if y.Args[1] == x {
+					return tb.Eq(y.Args[0], tb.Const(x.W, 0))
+				}
+				if x.Op == op {
+					for i := 0; i < 2; i++ {
+						for j := 0; j < 2; j++ {
+							if x.Args[i] == y.Args[j] {
+								return tb.Eq(x.Args[1-i], y.Args[1-j])
+							}
+						}
+					}
+				}
+			}
+			x, y = y, x
+		}
+	}
 	// Eq(x | c, k) is false when k lacks a bit of c
 	if b.IsConst() && a.Op == OpBOr && a.Args[1].IsConst() && (b.Val&a.Args[1].Val) != a.Args[1].Val {
 		return tb.F
